@@ -27,7 +27,8 @@ Fixpoint usz (fuel : nat) (t : yty) : N :=
           | YHashed t' => 1 + usz f t'
           | YRefRaw t' => usz f t'
           | YNoLib t' => usz f t'
-          | YPeek _ t0 t1 => usz f t0 + usz f t1
+          | YPeek _ _ _ t0 t1 => usz f t0 + usz f t1
+          | YRefRawOpt t' => usz f t'
           | YOpenStruct fs => fold_right (fun t1 a => usz f t1 + a) 0 fs
           | _ => 0
           end
@@ -47,7 +48,8 @@ Fixpoint yfits (fuel : nat) (t : yty) : bool :=
       | YHashmapAug _ _ v e => yfits f v && yfits f e
       | YBinTree _ v => yfits f v
       | YHashed t' | YRefRaw t' | YNoLib t' => yfits f t'
-      | YPeek _ t0 t1 => yfits f t0 && yfits f t1
+      | YPeek _ _ _ t0 t1 => yfits f t0 && yfits f t1
+      | YRefRawOpt t' => yfits f t'
       | YOpenStruct fs => forallb (yfits f) fs
       | YNamed _ => false
       | _ => true
@@ -154,7 +156,7 @@ Proof.
   cbn [ydec]. lazy zeta. unfold no_resolver.
   (* the tick and the library check (no resolver: a library cell is an error) *)
   assert (Hhead : forall u r, dpost u s (tickc st) r ->
-            dpost (1 + u) s st (if is_lib (yk s) && negb (match t with YRawCell | YAny | YOpenStruct _ | YRefRaw _ => true | _ => false end)
+            dpost (1 + u) s st (if is_lib (yk s) && negb (match t with YRawCell | YAny | YOpenStruct _ | YRefRaw _ | YRefRawOpt _ => true | _ => false end)
                                 then (if (match t with YNoLib _ => true | _ => false end) then yerr ETlb (tickc st)
                                       else if negb (hk (cell_of s)) then yerr ETlb (tickc st) else yerr ETlb (tickc st))
                                 else r)).
@@ -487,6 +489,9 @@ Proof.
     apply ypost_if.
     + eapply dpost_weaken; [apply (Hsubcall t2 s (tickc st) Hf1 (ysub_refl s)) | lia].
     + eapply dpost_weaken; [apply (Hsubcall t1 s (tickc st) Hf0 (ysub_refl s)) | lia].
+  - (* YRefRawOpt *)
+    destruct (yr s) as [ | c0 r0] eqn:Er; [apply ypost_ret; apply ysub_refl|].
+    apply (Hthen_ref t false (@nil bool, s) (tickc st) Hfit (ysub_refl s)).
   - (* YOpenStruct *)
     assert (Hgo : forall fs0, forallb (yfits f) fs0 = true -> forall s0 st0, ysub s0 s ->
               dpost (fold_right (fun t1 a => usz f t1 + a) 0 fs0) s st0
